@@ -9,6 +9,7 @@
 -/
 import SmsVerif.Props.C01
 import SmsVerif.Model.Auth
+import SmsVerif.Gen.Funcs
 
 namespace SmsVerif.C15
 open SmsVerif SmsVerif.C01
@@ -59,6 +60,56 @@ theorem C15_digest_input_layout (account secret : Bytes) (ts : Nat) :
     (smgpAuthInput account secret ts).length = account.length + 7 + secret.length + 10 := by
   simp [cmppAuthInput, smgpAuthInput, zeros, C15_ts10_width]
   omega
+
+/-! ### the digest inputs are the source: regenerated piece lists
+
+  `Gen.digestInputs` is re-extracted on every run from the syntax of the four functions that call
+  MD5 (`go/extract/digest.go`).  Evaluating the piece list is the model's digest input. -/
+
+def evalPiece (str : String → Bytes) (num : String → Nat) : Gen.Piece → Bytes
+  | .param n => str n
+  | .zeros n => zeros n
+  | .dec10 n => ts10 (num n)
+  | .unrecognised _ => []
+
+def evalPieces (str : String → Bytes) (num : String → Nat) (ps : List Gen.Piece) : Bytes :=
+  (ps.map (evalPiece str num)).flatten
+
+def digestOf (name : String) : Option (List Gen.Piece) := (Gen.digestInputs.find? (·.1 == name)).map (·.2)
+
+/-- per-run obligation: what the four functions hand to MD5 -/
+theorem C15_digest_inputs_from_source :
+    digestOf "cmpp.GenConnectAuth" = some [.param "account", .zeros 9, .param "password", .param "timestampStr"] ∧
+    digestOf "cmpp20.NewConnect" = some [.param "account", .zeros 9, .param "passwd", .param "t"] ∧
+    digestOf "cmpp.GenConnectRespAuthISMG" = some [.param "statusBytes", .param "reqAuth", .param "password"] ∧
+    digestOf "smgp30.genAuthenticatorClient" = some [.param "clientId", .zeros 7, .param "secret", .dec10 "timestamp"] ∧
+    Gen.timestampFormat = "%010d" := by decide
+
+/-- **the source's digest inputs are the model's**: for any argument values (the CMPP helpers
+    receive the timestamp already rendered by `TimeStamp2Str`, i.e. `ts10 ts`) -/
+theorem C15_digest_input_is_source (str : String → Bytes) (num : String → Nat) :
+    (∀ ps ts, digestOf "cmpp.GenConnectAuth" = some ps → str "timestampStr" = ts10 ts →
+      evalPieces str num ps = cmppAuthInput (str "account") (str "password") ts) ∧
+    (∀ ps ts, digestOf "cmpp20.NewConnect" = some ps → str "t" = ts10 ts →
+      evalPieces str num ps = cmppAuthInput (str "account") (str "passwd") ts) ∧
+    (∀ ps, digestOf "cmpp.GenConnectRespAuthISMG" = some ps →
+      evalPieces str num ps = cmppRespAuthInput (str "statusBytes") (str "reqAuth") (str "password")) ∧
+    (∀ ps, digestOf "smgp30.genAuthenticatorClient" = some ps →
+      evalPieces str num ps = smgpAuthInput (str "clientId") (str "secret") (num "timestamp")) := by
+  obtain ⟨h1, h2, h3, h4, _⟩ := C15_digest_inputs_from_source
+  refine ⟨?_, ?_, ?_, ?_⟩
+  · intro ps ts hps hts
+    rw [h1] at hps; cases hps
+    simp [evalPieces, evalPiece, cmppAuthInput, hts]
+  · intro ps ts hps hts
+    rw [h2] at hps; cases hps
+    simp [evalPieces, evalPiece, cmppAuthInput, hts]
+  · intro ps hps
+    rw [h3] at hps; cases hps
+    simp [evalPieces, evalPiece, cmppRespAuthInput]
+  · intro ps hps
+    rw [h4] at hps; cases hps
+    simp [evalPieces, evalPiece, smgpAuthInput]
 
 /-! ### the fields the peer needs survive the wire -/
 
@@ -246,6 +297,8 @@ open SmsVerif.C15
 #print axioms C15_ts10_parse
 #print axioms C15_ts10_digits
 #print axioms C15_digest_input_layout
+#print axioms C15_digest_inputs_from_source
+#print axioms C15_digest_input_is_source
 #print axioms C15_cmpp30_connect_exchange
 #print axioms C15_cmpp20_connect_exchange
 #print axioms C15_smgp30_login_exchange
